@@ -374,6 +374,22 @@ fn begin(c: usize, h: usize, op: &str, m: Option<usize>) -> usize {
     PENDING.with(|p| p.borrow_mut().push(o));
     o
 }
+thread_local! {
+    /// registry operation in flight per client task (so that a default-constructed service instance can say who spawned it)
+    pub static CUR_REG: RefCell<std::collections::HashMap<usize, usize>> = RefCell::new(std::collections::HashMap::new());
+}
+fn rbegin(c: usize, op: &str, k: usize, inst: Option<usize>) -> usize {
+    let o = fresh_op();
+    emit(format!("rbegin {} {} {} {} {}", o, c, op, k, inst.map(aid).unwrap_or("-".into())));
+    PENDING.with(|p| p.borrow_mut().push(o));
+    CUR_REG.with(|m| m.borrow_mut().insert(c, o));
+    o
+}
+fn rret(c: usize, o: usize, r: String) {
+    PENDING.with(|p| p.borrow_mut().retain(|x| *x != o));
+    CUR_REG.with(|m| m.borrow_mut().remove(&c));
+    emit(format!("rret {} {}", o, r));
+}
 fn ret(o: usize, r: String) {
     PENDING.with(|p| p.borrow_mut().retain(|x| *x != o));
     emit(format!("ret {} {}", o, r));
@@ -459,6 +475,10 @@ async fn exec_op(c: usize, op: Op) {
                 1 => spawn_node::<1>(a, &spec),
                 _ => spawn_node::<2>(a, &spec),
             };
+            if let HandleBox::Addr(a, addr) = &hb {
+                // identity is known from the moment of the spawn, not only once `started` ran
+                CTXMAP.with(|m| m.borrow_mut().insert(addr.ctxid(), *a));
+            }
             put(h, hb);
         }
         Op::Send { h, m, script } => {
@@ -835,42 +855,45 @@ async fn exec_op(c: usize, op: Op) {
             crate::node::DEFAULT_BEHAV.with(|d| *d.borrow_mut() = b);
         }
         Op::FromRegistry { k, h2 } => {
-            let o = begin(c, usize::MAX, "from_registry", Some(k));
+            let o = rbegin(c, "from_registry", k, None);
             let hb = match k {
                 1 => HandleBox::addr_unknown(Node::<1>::from_registry().await),
                 _ => HandleBox::addr_unknown(Node::<2>::from_registry().await),
             };
             let a = if let HandleBox::Addr(a, _) = &hb { *a } else { usize::MAX };
-            ret(o, format!("ok {} {}", h2, aid(a)));
+            rret(c, o, format!("inst {}", aid(a)));
+            emit(format!("rhandle {} {}", h2, aid(a)));
             put(h2, hb);
         }
         Op::Setup { k } => {
-            let o = begin(c, usize::MAX, "setup", Some(k));
+            let o = rbegin(c, "setup", k, None);
             let r = match k {
                 1 => Node::<1>::setup().await,
                 _ => Node::<2>::setup().await,
             };
-            ret(o, if r.is_ok() { "ok".into() } else { "err other".into() });
+            rret(c, o, if r.is_ok() { "unit".into() } else { "err".into() });
         }
         Op::Register { h, h2, h3 } => {
             let Some(hb) = take(h) else { return };
             match hb {
                 HandleBox::Addr(a, addr) if addr.k() != 0 => {
-                    let o = begin(c, h, "register", Some(addr.k()));
+                    let o = rbegin(c, "register", addr.k(), Some(a));
                     // on failure the address is consumed by the API
                     match addr.register().await {
                         Ok((me, old)) => {
                             put(h2, HandleBox::Addr(a, me));
+                            emit(format!("rhandle {} {}", h2, aid(a)));
                             match old {
                                 Some(old) => {
                                     let oa = CTXMAP.with(|m| m.borrow().get(&old.ctxid()).copied()).unwrap_or(usize::MAX);
                                     put(h3, HandleBox::Addr(oa, old));
-                                    ret(o, format!("ok {} some {} {}", h2, h3, aid(oa)));
+                                    emit(format!("rhandle {} {}", h3, aid(oa)));
+                                    rret(c, o, format!("registered {}", aid(oa)));
                                 }
-                                None => ret(o, format!("ok {} none", h2)),
+                                None => rret(c, o, "registered none".into()),
                             }
                         }
-                        Err(e) => ret(o, format!("err {}", err_kind(&e))),
+                        Err(_) => rret(c, o, "still_running".into()),
                     }
                 }
                 other => put(h, other),
@@ -879,22 +902,23 @@ async fn exec_op(c: usize, op: Op) {
         Op::Replace { h, h3 } => {
             let Some(hb) = take(h) else { return };
             match hb {
-                HandleBox::Addr(_, addr) if addr.k() != 0 => {
-                    let o = begin(c, h, "replace", Some(addr.k()));
+                HandleBox::Addr(a, addr) if addr.k() != 0 => {
+                    let o = rbegin(c, "replace", addr.k(), Some(a));
                     match addr.replace().await {
                         Some(old) => {
                             let oa = CTXMAP.with(|m| m.borrow().get(&old.ctxid()).copied()).unwrap_or(usize::MAX);
                             put(h3, HandleBox::Addr(oa, old));
-                            ret(o, format!("some {} {}", h3, aid(oa)));
+                            emit(format!("rhandle {} {}", h3, aid(oa)));
+                            rret(c, o, format!("prev {}", aid(oa)));
                         }
-                        None => ret(o, "none".into()),
+                        None => rret(c, o, "prev none".into()),
                     }
                 }
                 other => put(h, other),
             }
         }
         Op::Unregister { k, h2 } => {
-            let o = begin(c, usize::MAX, "unregister", Some(k));
+            let o = rbegin(c, "unregister", k, None);
             let old: Option<Box<dyn DynAddr>> = match k {
                 1 => Addr::<Node<1>>::unregister().await.map(|a| Box::new(a) as Box<dyn DynAddr>),
                 _ => Addr::<Node<2>>::unregister().await.map(|a| Box::new(a) as Box<dyn DynAddr>),
@@ -903,9 +927,10 @@ async fn exec_op(c: usize, op: Op) {
                 Some(old) => {
                     let oa = CTXMAP.with(|m| m.borrow().get(&old.ctxid()).copied()).unwrap_or(usize::MAX);
                     put(h2, HandleBox::Addr(oa, old));
-                    ret(o, format!("some {} {}", h2, aid(oa)));
+                    emit(format!("rhandle {} {}", h2, aid(oa)));
+                    rret(c, o, format!("prev {}", aid(oa)));
                 }
-                None => ret(o, "none".into()),
+                None => rret(c, o, "prev none".into()),
             }
         }
         Op::TryFromRegistry { k, h2 } => {
@@ -916,21 +941,22 @@ async fn exec_op(c: usize, op: Op) {
             match got {
                 Some(x) => {
                     let oa = CTXMAP.with(|m| m.borrow().get(&x.ctxid()).copied()).unwrap_or(usize::MAX);
-                    emit(format!("sync {} - try_from_registry {} some {} {}", c, k, h2, aid(oa)));
+                    emit(format!("rsync {} try_from {} prev {}", c, k, aid(oa)));
+                    emit(format!("rhandle {} {}", h2, aid(oa)));
                     put(h2, HandleBox::Addr(oa, x));
                 }
-                None => emit(format!("sync {} - try_from_registry {} none", c, k)),
+                None => emit(format!("rsync {} try_from {} prev none", c, k)),
             }
         }
         Op::AlreadyRunning { k } => {
-            let o = begin(c, usize::MAX, "already_running", Some(k));
+            let o = rbegin(c, "already_running", k, None);
             let r = match k {
                 1 => Node::<1>::already_running().await,
                 _ => Node::<2>::already_running().await,
             };
-            ret(o, match r {
-                None => "none".into(),
-                Some(b) => format!("some {}", u8::from(b)),
+            rret(c, o, match r {
+                None => "running none".into(),
+                Some(b) => format!("running {}", u8::from(b)),
             });
         }
         Op::Publish { j, m, via } => {
